@@ -170,12 +170,17 @@ def specHostOK (noglob : Bool) (key host : C13.Str) (tls : Bool) : Option Bool :
     | 42 :: lit => if hasMeta lit then none else some (lit.isSuffixOf h)
     | _ => none
 
+/-- the first among the longest -/
+def longest : List DRoute → Option DRoute
+  | [] => none
+  | r :: rs =>
+    match longest rs with
+    | none => some r
+    | some b => if b.path.length > r.path.length then some b else some r
+
 /-- the candidate that stands for a key: the matching route with the longest path -/
 def specBest (rs : List DRoute) (path : C13.Str) : Option DRoute :=
-  (rs.filter (fun r => r.path.isPrefixOf path)).foldl
-    (fun best r => match best with
-      | none => some r
-      | some b => if r.path.length > b.path.length then some r else some b) none
+  longest (rs.filter (fun r => r.path.isPrefixOf path))
 
 def surelyLive (t : C13.RTarget) (scheme host : C13.Str) : Bool :=
   t.code == 0 || t.url.scheme != scheme ||
